@@ -245,14 +245,15 @@ PROPS["C18"] = {
     "jobs": {"quick": c18_jobs(True), "thorough": c18_jobs(False)},
 }
 
+CL2 = ["CO_CSDO_N=2", "C19_CLIENT=1"]
 PROPS["C19"] = {
     "level": "model_checking",
     "technique": "deviation-bounded exhaustive enumeration of SDO server behaviours against the real SDO client (sequences of back-to-back transfers, one or two deviations placed at every response step), reference client/server with callback, buffer-guard and timer-pool accounting",
-    "text": "The harness plays the SDO server for client 0: a conforming reference server (expedited for <= 4 bytes, segmented otherwise, junk in unused bytes) plus 16 deviation kinds that can be placed at every response step k of a transfer: abort with matching / other-index / other-sub-index multiplexer, silence, late answer while idle, late answer into the next transfer, wrong toggle, four foreign response types per phase, announced size +-1, expedited answer to a segmented request and vice versa, more data than announced (missing c bit + extra segments, over-long last segment), early c bit, request while busy (both API calls), five kinds of response while idle. A case is a sequence of up to 2 (quick) / 3 (thorough) transfers - direction x every size 1..300, 889, 1000, 1999, 2000 x timing profile (timeout, server delay) in {(2,0),(2,1),(5,0),(5,4)} ticks - separated by idle gaps {0, timeout-1, timeout, timeout+1}, with <= 1 (quick) / <= 2 (thorough) deviations per sequence; plus a 70 s timeout (silent server and a server answering after 65.6 s), a long-timeout transfer behind a short one, and a disabled client (1280h:1/:2 bit 31). User buffers are exact-size heap blocks GUARD|size|GUARD checked after every frame. Oracle per step: request frames on 605h equal the reference client's (initiate, announced size, toggle, n, c, data in order); exactly one completion callback per accepted request with code 0 / the server's abort code / 0504 0000h plus exactly one abort frame after [timeout, timeout+1] ticks without a response; upload buffer equals the server's bytes (re-checked at the end of the sequence); busy => CO_ERR_SDO_BUSY without effect; disabled => refused without frame, callback or timer; responses while idle have no effect; timer action and event occupancy return to the pre-request value; nothing happens in an idle tail after the last transfer.",
-    "note": "where CiA 301 does not fix the client's reaction an allowed set is used: a malformed response may be ignored (then the timeout path is checked) or end the transfer once with a non-zero code and at most one abort frame - never code 0; an object smaller than the buffer or a segmented answer to a <= 4-byte upload may complete with the server's bytes as a prefix or be refused; an abort with a foreign multiplexer may be ignored or taken. The timeout is per response. NMT resets during a transfer are C20's; only client 0 exists (CO_CSDO_N=1). Second/third transfers after a deviation use 8 probe transfers, not every size",
+    "text": "The harness plays the SDO server for client 0: a conforming reference server (expedited for <= 4 bytes, segmented otherwise, junk in unused bytes) plus 16 deviation kinds that can be placed at every response step k of a transfer: abort with matching multiplexer (an ordinary code, and each of the six codes the client generates itself: 0504 0000h, 0503 0000h, 0504 0001h, 0604 0043h, 0607 0012h, 0607 0013h) / other-index / other-sub-index multiplexer, silence, late answer while idle, late answer into the next transfer, wrong toggle, four foreign response types per phase, announced size +-1, expedited answer to a segmented request and vice versa, more data than announced (missing c bit + extra segments, over-long last segment), early c bit, request while busy (both API calls), five kinds of response while idle. A case is a sequence of up to 2 (quick) / 3 (thorough) transfers - direction x every size 1..300, 889, 1000, 1999, 2000 x timing profile (timeout, server delay) in {(2,0),(2,1),(5,0),(5,4)} ticks - separated by idle gaps {0, timeout-1, timeout, timeout+1}, with <= 1 (quick) / <= 2 (thorough) deviations per sequence; plus a 70 s timeout (silent server and a server answering after 65.6 s), a long-timeout transfer behind a short one, and a disabled client (1280h:1/:2 bit 31). The smallest and largest size shards, the probe-pair part and the special part are repeated in a build with two clients (CO_CSDO_N=2) in which the transfers run on client 1 (1281h, server node 6) while client 0 is an idle bystander. User buffers are exact-size heap blocks GUARD|size|GUARD checked after every frame. Oracle per step: request frames on 605h equal the reference client's (initiate, announced size, toggle, n, c, data in order); exactly one completion callback per accepted request with code 0 / the server's abort code / 0504 0000h plus exactly one abort frame after [timeout, timeout+1] ticks without a response; upload buffer equals the server's bytes (re-checked at the end of the sequence); busy => CO_ERR_SDO_BUSY without effect; disabled => refused without frame, callback or timer; responses while idle have no effect; timer action and event occupancy return to the pre-request value; nothing happens in an idle tail after the last transfer.",
+    "note": "where CiA 301 does not fix the client's reaction an allowed set is used: a malformed response may be ignored (then the timeout path is checked) or end the transfer once with a non-zero code and at most one abort frame - never code 0; an object smaller than the buffer or a segmented answer to a <= 4-byte upload may complete with the server's bytes as a prefix or be refused; an abort with a foreign multiplexer may be ignored or taken. The timeout is per response. NMT resets during a transfer are C20's. Second/third transfers after a deviation use 8 probe transfers, not every size",
     "jobs": {
-        "quick": [J("c19", c, deadline=150) for c in range(26)],
-        "thorough": [J("c19", c, deadline=880) for c in range(26)],
+        "quick": [J("c19", c, deadline=150) for c in range(26)] + [J("c19", c, defs=CL2, deadline=150) for c in (0, 1, 14, 15, 24, 25)],
+        "thorough": [J("c19", c, deadline=880) for c in range(26)] + [J("c19", c, defs=CL2, deadline=880) for c in (0, 1, 14, 15, 16, 17, 24, 25)],
     },
 }
 
